@@ -9,12 +9,13 @@ use serde_json::{json, Value};
 use std::collections::HashSet;
 
 pub fn core_segs(f: Family, level: u8) -> Vec<Vec<u8>> {
-	let mut v: Vec<&str> = vec!["", ".", "..", "a", "a:b", "1:b"];
+	// "a..": an ordinary segment that merely ends with ".."
+	let mut v: Vec<&str> = vec!["", ".", "..", "a", "a:b", "1:b", "a.."];
 	if f == Family::Iri {
 		v.push("é");
 	}
 	if level >= 1 {
-		v.extend(["b", "%2E", ":"]);
+		v.extend(["b", "%2E", ":", "..."]);
 	}
 	v.into_iter().map(domains::b).collect()
 }
